@@ -1,6 +1,9 @@
 package rules
 
 import (
+	"regexp"
+	"sort"
+	"path/filepath"
 	"fmt"
 	"go/ast"
 	"go/token"
@@ -96,6 +99,7 @@ func checkC03(c *core.Ctx) {
 	ruleAddInputOutputHelpers(c)
 	rulePCVAliasChain(c)
 	ruleImmutableColumns(c)
+	ruleBackfillTakesLastMove(c)
 }
 
 // storeMethodCallsIn returns calls in d to methods of *Store (storage) with the given name.
@@ -785,4 +789,111 @@ func keysOf(m map[string]bool) []string {
 		out = append(out, k)
 	}
 	return out
+}
+
+var (
+	reFirstValuePCV = regexp.MustCompile(`first_value\(\s*(?:moves\.)?post_commit_volumes\s*\)\s*over\s*\(`)
+	reLastKeySeqDesc = regexp.MustCompile(`(?:^|[\s,.])seq\s+desc\s*$`)
+)
+
+// ruleBackfillTakesLastMove (CAT): a migration that derives a transaction's post_commit_volumes
+// from the moves table picks, per (transaction, account, asset), one move out of several: it must
+// be the last one (highest seq), the state right after the whole transaction. Read off the SQL
+// text of every migration: a `DISTINCT ON (…)` sub-select over moves that yields
+// post_commit_volumes either through `first_value(post_commit_volumes) over (… order by … seq
+// desc)` or, when the column is taken as is, through an `order by … seq desc` of its own.
+func ruleBackfillTakesLastMove(c *core.Ctx) {
+	dir := filepath.Join(c.RepoDir, "internal/storage/bucket/migrations")
+	files, _ := filepath.Glob(filepath.Join(dir, "*", "up.sql"))
+	sort.Strings(files)
+	n := 0
+	for _, f := range files {
+		b, err := c.ReadFile(f)
+		if err != nil {
+			continue
+		}
+		txt := strings.ToLower(string(b))
+		// drop line comments
+		var sb strings.Builder
+		for _, line := range strings.Split(txt, "\n") {
+			if i := strings.Index(line, "--"); i >= 0 {
+				line = line[:i]
+			}
+			sb.WriteString(line)
+			sb.WriteString(" ")
+		}
+		txt = strings.Join(strings.Fields(sb.String()), " ")
+		rel, _ := filepath.Rel(c.RepoDir, f)
+		for at := 0; ; {
+			i := strings.Index(txt[at:], "distinct on (")
+			if i < 0 {
+				break
+			}
+			start := at + i
+			// the sub-select ends where the parenthesis that encloses it closes
+			depth, end := 0, len(txt)
+			for j := start; j < len(txt); j++ {
+				switch txt[j] {
+				case '(':
+					depth++
+				case ')':
+					depth--
+					if depth < 0 {
+						end = j
+						j = len(txt)
+					}
+				}
+			}
+			seg := txt[start:end]
+			at = start + len("distinct on (")
+			if !strings.Contains(seg, "post_commit_volumes") || !strings.Contains(seg, "from moves") {
+				continue
+			}
+			// one row per (transaction, account, asset), chosen by DISTINCT ON itself: legacy
+			// helper functions that aggregate with first(…) … group by are another construct
+			onList := seg[len("distinct on ("):]
+			if k := strings.Index(onList, ")"); k >= 0 {
+				onList = onList[:k]
+			}
+			if !(strings.Contains(onList, "transactions_seq") || strings.Contains(onList, "transactions_id")) || strings.Contains(seg, "group by") {
+				continue
+			}
+			n++
+			key := fmt.Sprintf("%s:distinct-on#%d", rel, n)
+			wins := reFirstValuePCV.FindAllStringIndex(seg, -1)
+			ok := true
+			detail := ""
+			if len(wins) > 0 {
+				for _, w := range wins {
+					// window body up to its closing parenthesis
+					d, e := 1, len(seg)
+					for j := w[1]; j < len(seg); j++ {
+						if seg[j] == '(' {
+							d++
+						} else if seg[j] == ')' {
+							d--
+							if d == 0 {
+								e = j
+								break
+							}
+						}
+					}
+					body := seg[w[1]:e]
+					k := strings.LastIndex(body, "order by")
+					if k < 0 || !reLastKeySeqDesc.MatchString(strings.TrimSpace(body[k:])) {
+						ok = false
+						detail = "window `" + strings.TrimSpace(body) + "`"
+					}
+				}
+			} else {
+				k := strings.LastIndex(seg, "order by")
+				if k < 0 || !reLastKeySeqDesc.MatchString(strings.TrimSpace(seg[k:])) {
+					ok = false
+					detail = "DISTINCT ON without a window keeps the first row of its ORDER BY, which is not `… seq desc`"
+				}
+			}
+			c.Check(ok, "CAT/pcv-backfill", key, rel, "the move kept per (transaction, account, asset) is the last one by seq", "this migration fills post_commit_volumes from a move that is not the last one of the transaction for that account and asset ("+detail+"): a transaction touching an account several times gets the volumes of an intermediate state, and its pre-commit volumes go wrong (negative) with them")
+		}
+	}
+	c.Floor("CAT/pcv-backfill", "back-fills of post_commit_volumes from moves in the migrations", n, 1)
 }
